@@ -83,8 +83,55 @@ RECORD = False
 SHAPE_FILE = os.path.join(os.path.dirname(os.path.abspath(__file__)), "shapes.json")
 
 
+class _Alpha(ast.NodeTransformer):
+    """Rename the LOCAL variables of a function (names it assigns, loop / with / except targets, comprehension variables;
+    not its parameters, not globals) to v0, v1, ... in order of first binding: a pinned shape is the function up to the
+    spelling of its locals.  Semantics preserving, so two functions with the same normal form behave alike."""
+
+    def __init__(self, fn):
+        self.map = {}
+        params = set()
+        if isinstance(fn, (ast.FunctionDef, ast.Lambda)):
+            a = fn.args
+            params = {x.arg for x in a.posonlyargs + a.args + a.kwonlyargs}
+            params |= {x.arg for x in (a.vararg, a.kwarg) if x is not None}
+        declared = set()
+        for n in ast.walk(fn):
+            if isinstance(n, (ast.Global, ast.Nonlocal)):
+                declared |= set(n.names)
+        for n in ast.walk(fn):
+            if isinstance(n, ast.Name) and isinstance(n.ctx, (ast.Store, ast.Del)) and n.id not in params and n.id not in declared:
+                self.map.setdefault(n.id, "v%d" % len(self.map))
+            elif isinstance(n, ast.ExceptHandler) and n.name and n.name not in params:
+                self.map.setdefault(n.name, "v%d" % len(self.map))
+
+    def visit_Name(self, n):
+        if n.id in self.map:
+            return ast.copy_location(ast.Name(id=self.map[n.id], ctx=n.ctx), n)
+        return n
+
+    def visit_ExceptHandler(self, n):
+        self.generic_visit(n)
+        if n.name in self.map:
+            n.name = self.map[n.name]
+        return n
+
+
+def normal_dump(node):
+    import copy
+    node = copy.deepcopy(node)
+    fns = [node] if isinstance(node, ast.FunctionDef) else []
+    if fns:
+        # drop the docstring
+        b = node.body
+        if b and isinstance(b[0], ast.Expr) and isinstance(b[0].value, ast.Constant) and isinstance(b[0].value.value, str) and len(b) > 1:
+            node.body = b[1:]
+    node = _Alpha(node).visit(node)
+    return ast.dump(node)
+
+
 def pin(key, node):
-    d = ast.dump(node)
+    d = normal_dump(node)
     if RECORD:
         SHAPES[key] = d
         return
@@ -273,40 +320,84 @@ def write_if_changed(path, txt):
         f.write(txt)
 
 
+REF_DIR = os.path.join(os.path.dirname(os.path.abspath(__file__)), "reference")
+# target -> the generated files it owns
+TARGETS = {"TextTables": ["TextTables.v"], "PatcherProg": ["PatcherProg.v"],
+           "xl_main": ["Flags.v", "CliPlumbing.v", "EntryPoints.v"], "xl_state": ["StateShape.v"]}
+
+
 def main():
+    """Every target is translated on its own.  A target whose source no longer fits its grammar (or a pinned shape) is
+    reported as FAILED; its generated files are then replaced by the recorded reference (the tables of the tree the
+    hand-written model was validated on, translator/reference/) so that the rest of the development still builds, and
+    the checks of every property that is tied to the code THROUGH that target treat the tie as broken
+    (harness/lib.py TIED_THROUGH).  Exit status: 0 all targets translated, 3 some failed (see Gen/status.json),
+    2 nothing usable."""
     global RECORD, SHAPES
+    import glob
+    import importlib.util
+    import shutil
     args = [a for a in sys.argv[1:] if not a.startswith("--")]
     RECORD = "--record" in sys.argv
     repo, out = args[0], args[1]
     os.makedirs(out, exist_ok=True)
     if not RECORD and os.path.exists(SHAPE_FILE):
         SHAPES = json.load(open(SHAPE_FILE))
-    try:
+
+    def text_tables():
         sig = xl_actions(repo)
         fmt = xl_diff_formatter(repo)
         par = xl_diff_parser(repo)
         emit_text_tables(out, sig, fmt, par)
-        for extra in EXTRA:
-            extra(repo, out)
-        # plug-ins: translator/xl_*.py, each defining emit(X, repo, out) where X is this module
-        # (use X.fail, X.pin, X.cstr, X.clist, X.get_class, X.get_funcs, X.write_if_changed, ...)
-        import glob
-        import importlib.util
-        here = os.path.dirname(os.path.abspath(__file__))
-        for path in sorted(glob.glob(os.path.join(here, "xl_*.py"))):
-            spec = importlib.util.spec_from_file_location(os.path.basename(path)[:-3], path)
+
+    jobs = [("TextTables", text_tables), ("PatcherProg", lambda: _extra_patcher(repo, out))]
+    # plug-ins: translator/xl_*.py, each defining emit(X, repo, out) where X is this module
+    # (use X.fail, X.pin, X.cstr, X.clist, X.get_class, X.get_funcs, X.write_if_changed, ...)
+    here = os.path.dirname(os.path.abspath(__file__))
+    for path in sorted(glob.glob(os.path.join(here, "xl_*.py"))):
+        name = os.path.basename(path)[:-3]
+
+        def plug(path=path, name=name):
+            spec = importlib.util.spec_from_file_location(name, path)
             mod = importlib.util.module_from_spec(spec)
             spec.loader.exec_module(mod)
             mod.emit(sys.modules[__name__], repo, out)
-    except Untranslatable as ex:
-        print("TRANSLATION FAILED (fail-closed): %s" % ex)
-        sys.exit(2)
-    except (SyntaxError, OSError, KeyError, AttributeError, IndexError, AssertionError) as ex:
-        print("TRANSLATION FAILED (fail-closed): %r" % ex)
-        sys.exit(2)
+        jobs.append((name, plug))
+    status = {}
+    for name, job in jobs:
+        try:
+            job()
+            status[name] = "ok"
+        except Untranslatable as ex:
+            status[name] = "FAILED: %s" % ex
+        except (SyntaxError, OSError, KeyError, AttributeError, IndexError, AssertionError, TypeError, ValueError) as ex:
+            status[name] = "FAILED: %r" % ex
+    failed = [n for n, v in status.items() if v != "ok"]
+    unusable = False
+    for n in failed:
+        print("TRANSLATION FAILED (fail-closed) [%s]: %s" % (n, status[n][8:]))
+        for f in TARGETS.get(n, []):
+            ref = os.path.join(REF_DIR, f)
+            if os.path.exists(ref):
+                write_if_changed(os.path.join(out, f), open(ref).read())
+            else:
+                unusable = True
+    with open(os.path.join(out, "status.json"), "w") as f:
+        json.dump(status, f, indent=1, sort_keys=True)
     if RECORD:
+        if failed:
+            print("not recording: some targets failed")
+            sys.exit(2)
         with open(SHAPE_FILE, "w") as f:
             json.dump(SHAPES, f, indent=1, sort_keys=True)
+        os.makedirs(REF_DIR, exist_ok=True)
+        for fs in TARGETS.values():
+            for f in fs:
+                shutil.copy(os.path.join(out, f), os.path.join(REF_DIR, f))
+    if unusable:
+        sys.exit(2)
+    if failed:
+        sys.exit(3)
     print("translation ok")
 
 
@@ -325,12 +416,47 @@ def xl_patcher(repo):
         if rigid not in fs:
             fail("Patcher.%s missing" % rigid)
         pin("Patcher." + rigid, fs[rigid])
+    # private helper methods that consist of ONE return statement (`def _select(self, tree, path): return tree.xpath(...)[0]`)
+    # are inlined at their call sites `self._helper(args)` before the handlers are read: parameters become the argument
+    # expressions (each parameter may be used at most once in the body, so nothing is evaluated twice or dropped)
+    helpers = {}
+    for name, f in fs.items():
+        if name in ("nsmap", "patch", "handle_action") or name.startswith("_handle_"):
+            continue
+        b = body_nodoc(f)
+        if len(b) == 1 and isinstance(b[0], ast.Return) and b[0].value is not None and not f.decorator_list:
+            params = argnames(f)
+            if params and params[0] == "self":
+                uses = {}
+                for n in ast.walk(b[0].value):
+                    if isinstance(n, ast.Name) and n.id in params[1:]:
+                        uses[n.id] = uses.get(n.id, 0) + 1
+                if all(uses.get(p_, 0) == 1 for p_ in params[1:]):
+                    helpers[name] = (params[1:], b[0].value)
+                    continue
+        fail("Patcher: unexpected method " + name, f)
+
+    class _Inline(ast.NodeTransformer):
+        def visit_Call(self, c):
+            self.generic_visit(c)
+            if (isinstance(c.func, ast.Attribute) and isinstance(c.func.value, ast.Name) and c.func.value.id == "self"
+                    and c.func.attr in helpers and not c.keywords and len(c.args) == len(helpers[c.func.attr][0])):
+                import copy
+                params, expr = helpers[c.func.attr]
+                sub = dict(zip(params, c.args))
+
+                class _Sub(ast.NodeTransformer):
+                    def visit_Name(self, n):
+                        return copy.deepcopy(sub[n.id]) if n.id in sub else n
+                return _Sub().visit(copy.deepcopy(expr))
+            return c
     progs = []
     for name, f in fs.items():
-        if name in ("nsmap", "patch", "handle_action"):
+        if name in ("nsmap", "patch", "handle_action") or name in helpers:
             continue
         if not name.startswith("_handle_"):
             fail("Patcher: unexpected method " + name, f)
+        f = ast.fix_missing_locations(_Inline().visit(f))
         if argnames(f) != ["self", "action", "tree"]:
             fail("Patcher.%s: unexpected arguments" % name, f)
         progs.append((name[len("_handle_"):], xl_handler(name, body_nodoc(f))))
